@@ -92,7 +92,11 @@ def value_dispatch(repo: Repo, R):
     R.check(ok1 and ok2, rule, key_of(fd), fd.site, f"dictify_params maps every paramclass field to its own value ({ok1}); dicts pass through ({ok2})", why="a parameter is exported under another parameter's name")
     fx = repo.func(F_EXPORT, "ProtoExporter.export_instance")
     loop = [n for n in au.walk_no_nested(fx.node) if isinstance(n, ast.For) and ast.unparse(n.iter) == "params.items()"]
-    ok = len(loop) == 1 and isinstance(loop[0].target, ast.Tuple) and len(loop[0].target.elts) == 2 and bool(shared.calls_matching(loop[0], "pinst.parameters.append(vlsir.Param(name={}, value=export_param_value({})))".format(*[ast.unparse(x) for x in loop[0].target.elts])))
+    # one loop after the dispatch, or one per arm of it: every one of them exports every pair
+    ok = len(loop) >= 1 and all(isinstance(lp.target, ast.Tuple) and len(lp.target.elts) == 2 and bool(shared.calls_matching(lp, "pinst.parameters.append(vlsir.Param(name={}, value=export_param_value({})))".format(*[ast.unparse(x) for x in lp.target.elts]))) for lp in loop)
+    # ... and every arm that picks a parameter dictionary runs into such a loop
+    for c_, _b in pat.find("params = $F(inst.of.params)", fx.node):
+        ok = ok and any(shared.precedes(fx.node, c_, lp) for lp in loop)
     R.check(ok, rule, key_of(fx, "param-loop"), fx.site, f"every (name, value) pair becomes Param(name=name, value=export_param_value(value)) on the instance: {ok}", why="parameters are dropped or mis-named on the instance")
     # which dictionary for which target
     pv = ast.unparse(loop[0].iter).split(".")[0] if loop else "params"
@@ -100,7 +104,10 @@ def value_dispatch(repo: Repo, R):
         return any(shared.cond_match(fx.node, c, cond, True, use_prov=False) for c, _b in pat.find(f"{pv} = {call}(inst.of.params)", fx.node))
     phys = _src("inst.of.prim.primtype == PrimitiveType.PHYSICAL", "dictify_params")
     ideal = _src("inst.of.prim.primtype == PrimitiveType.IDEAL", "export_primitive_params")
-    ext = _src("isinstance(inst.of, ExternalModuleCall)", "dictify_params")
+    # external modules: the assignment that runs when the target can only be an ExternalModuleCall (`elif isinstance(..)`
+    # or the `else` left after Module and PrimitiveCall)
+    ext = any(shared.admissible_kinds(fx.node, c, "inst.of", {"Module", "PrimitiveCall", "ExternalModuleCall"}) == {"ExternalModuleCall"}
+              for c, _b in pat.find(f"{pv} = dictify_params(inst.of.params)", fx.node))
     R.check(phys and ideal and ext, rule, key_of(fx, "param-source"), fx.site, f"physical primitives and external modules export their parameters name by name ({phys}, {ext}); ideal primitives through the renaming table ({ideal})",
             why="parameters of one target kind are exported through another kind's mapping")
 
@@ -108,12 +115,13 @@ def value_dispatch(repo: Repo, R):
 def none_skipped(repo: Repo, R):
     rule = "C13.2-none-omitted"
     fx = repo.func(F_EXPORT, "ProtoExporter.export_instance")
-    ok = False
-    only = False
+    ok = None
+    only = None
     extra = []
     for lp in au.walk_no_nested(fx.node):
         if isinstance(lp, ast.For) and ast.unparse(lp.iter) == "params.items()":
             if isinstance(lp.target, ast.Tuple) and len(lp.target.elts) == 2:
+                prev_ok, prev_only = ok, only
                 vv = ast.unparse(lp.target.elts[1])
                 apps = pat.find("pinst.parameters.append($P)", lp)
                 outer = len(shared.path_conditions(fx.node, lp))
@@ -126,6 +134,9 @@ def none_skipped(repo: Repo, R):
                             extra.append(("" if pol else "not ") + ast.unparse(t))
                 only = bool(apps) and not extra
                 only = only and not any(isinstance(n, (ast.Break, ast.Return)) for n in au.walk_no_nested(lp) if n is not lp)
+                ok = ok and prev_ok is not False
+                only = only and prev_only is not False
+    ok, only = bool(ok), bool(only)
     R.check(ok, rule, key_of(fx), fx.site, f"None-valued parameters are skipped before export: {ok}", why="a None parameter is exported as an empty Param (netlisted as a blank value)")
     R.check(only, rule, key_of(fx, "only-none"), fx.site, f"every parameter whose value is not None is exported — nothing but `is None` decides: {only}" + (f"; also decided by {extra}" if extra else ""),
             why="a parameter explicitly set to 0, 0.0, False or '' is left out of the instance: the device is netlisted with the model's default instead")
